@@ -3,7 +3,7 @@
 
    run_server cfg cs      the model of Builder::socket(..).server(guid).p2p().build() (C16/Model.v) reading the
                           chunks cs (what successive recvmsg calls return: bytes and fds)
-   spec_verdict, known_class, accepts, conforms, match_replies, empty_line_ahead     C16/Spec.v
+   spec_verdict, known_class, accepts, conforms, match_replies     C16/Spec.v
    chunks_nonempty cs     the transport contract: a read returns at least one byte before the end of the stream *)
 From ZV Require Import Base.Bytes Base.Res C16.Model C16.Spec C16.SplitProofs C16.Proofs.
 
@@ -27,9 +27,8 @@ Theorem C16_full_statement_refuted : ~ C16_full_statement.
 Proof. exact full_statement_refuted. Qed.
 Print Assumptions C16_full_statement_refuted.
 
-(* ---- ... and it holds outside the three known classes ([known_class] names the first deviation trigger met by
-        the ideal conversation: a bare LF at a line start, a bare DATA under EXTERNAL with unknown credentials, a
-        line that is not a well-formed known command) *)
+(* ---- ... and it holds outside the one remaining known class ([known_class]: the ideal conversation meets a line that
+        is not a well-formed known command — unknown word, empty line, non-hex argument, OK without a GUID) *)
 Theorem C16_conforms_partial : forall cfg cs,
   chunks_nonempty cs = true ->
   known_class (ctx_of cfg) (stream_of cs) = None ->
@@ -39,7 +38,7 @@ Print Assumptions C16_conforms_partial.
 
 (* ---- authentication: the handshake completes exactly on the conversations of the inductive relation [accepts]
         (BEGIN after a successful AUTH in the configured mechanism; EXTERNAL only with known credentials and an
-        empty or equal identity; ANONYMOUS with any trace) *)
+        empty or equal identity; ANONYMOUS with any trace; any other mechanism name REJECTED) *)
 Theorem C16_auth_partial : forall cfg cs,
   chunks_nonempty cs = true ->
   known_class (ctx_of cfg) (stream_of cs) = None ->
@@ -48,14 +47,14 @@ Theorem C16_auth_partial : forall cfg cs,
 Proof. exact auth_partial. Qed.
 Print Assumptions C16_auth_partial.
 
-(* completion is never granted wrongly either when a malformed line ends the conversation early *)
-Theorem C16_auth_sound_partial : forall cfg cs,
+(* completion is never granted wrongly, on any stream the specification prescribes (also when a malformed line ends
+   the conversation early: no class is excluded) *)
+Theorem C16_auth_sound : forall cfg cs,
   chunks_nonempty cs = true ->
-  known_class (ctx_of cfg) (stream_of cs) = None \/ known_class (ctx_of cfg) (stream_of cs) = Some KMalformed ->
   spec_verdict (ctx_of cfg) (stream_of cs) <> VUnclear ->
   is_done (run_server cfg cs) = true -> accepts (ctx_of cfg) (stream_of cs).
-Proof. exact auth_sound_partial. Qed.
-Print Assumptions C16_auth_sound_partial.
+Proof. exact auth_sound. Qed.
+Print Assumptions C16_auth_sound.
 
 (* the executable verdict used as oracle says "completes" exactly on the relation *)
 Theorem C16_accepts_executable : forall x s,
@@ -74,26 +73,12 @@ Theorem C16_replies_partial : forall cfg cs rs,
 Proof. exact replies_partial. Qed.
 Print Assumptions C16_replies_partial.
 
-(* ---- no panic, unless an LF stands where a line should start *)
-Theorem C16_nopanic_partial : forall cfg cs,
-  chunks_nonempty cs = true ->
-  empty_line_ahead (stream_of cs) true = false ->
-  is_panic (run_server cfg cs) = false.
-Proof. exact nopanic_partial. Qed.
-Print Assumptions C16_nopanic_partial.
+(* ---- no input makes the server panic (full strength, every stream and chunking) *)
+Theorem C16_nopanic : forall cfg cs, chunks_nonempty cs = true -> is_panic (run_server cfg cs) = false.
+Proof. exact nopanic. Qed.
+Print Assumptions C16_nopanic.
 
-(* ---- the three known findings *)
-Theorem C16_lf_panic_refuted :
-  exists cfg cs, chunks_nonempty cs = true /\ is_panic (run_server cfg cs) = true.
-Proof. exact lf_panic_refuted. Qed.
-Print Assumptions C16_lf_panic_refuted.
-
-Theorem C16_bare_data_refuted :
-  exists cfg cs, chunks_nonempty cs = true /\ sc_mech cfg = External /\ sc_uid cfg = None /\
-                 is_done (run_server cfg cs) = true /\ ~ accepts (ctx_of cfg) (stream_of cs).
-Proof. exact bare_data_refuted. Qed.
-Print Assumptions C16_bare_data_refuted.
-
+(* ---- the remaining known finding: a malformed line ends the conversation without the ERROR reply *)
 Theorem C16_malformed_abort_refuted :
   exists cfg cs, chunks_nonempty cs = true /\
                  spec_verdict (ctx_of cfg) (stream_of cs) = VFail [RError] /\
